@@ -48,7 +48,7 @@ def model_checks(tier):
     return [
         dict(name='dagx_g', module='MC_CellDag.tla', gen=True, workers=1, cfg=dagx_cfg(3, [1, 9] if q else [0, 1, 9], 2, 3, 'FALSE', 'TRUE', False)),
         dict(name='prune_chain_g', module='MC_Prune.tla', gen=True, workers=1, timeout=900 if q else 5400, cfg=prune_cfg(2, 3, 1, [1], 'FALSE', 'TRUE', invs=not q)),
-        dict(name='prune_wide_g', module='MC_Prune.tla', gen=True, workers=1 if q else 4, timeout=900 if q else 5400, cfg=prune_cfg(1 if q else 2, 1, 2, [0, 1], 'FALSE', 'TRUE', invs=not q)),
+        dict(name='prune_wide_g', module='MC_Prune.tla', gen=True, workers=1, timeout=900 if q else 5400, cfg=prune_cfg(1 if q else 2, 1, 2, [0, 1], 'FALSE', 'TRUE', invs=not q)),
         dict(name='dagx_sym', module='MC_CellDag.tla', workers=8, timeout=1500,
              cfg=dagx_cfg(3 if q else 4, [0, 1, 9] if q else [1], 2, 2, 'TRUE', 'FALSE', True)),
         dict(name='prune_sym', module='MC_Prune.tla', workers=8 if q else 16, timeout=1500 if q else 5400,
